@@ -69,6 +69,7 @@ Definition run_case (s : sexp) : sexp :=
       | Some t, Some m =>
         let o := Opts (negb (ol =? 0)) (negb (oh =? 0)) (negb (ot =? 0)) (negb (od =? 0)) in
         match obs with
+        | L [S _] => v_specfail "c15-panic" (L [])  (* the generator panicked *)
         | S _ =>                                    (* fail: nil document / "" *)
           if valid =? 0 then v_ok false else v_specfail "c15-valid-base-rejected" (L [])
         | L [S _; I wf; I kept; I wrap; L ns] =>
